@@ -3,7 +3,7 @@
 # applies, full suite passes, demo fails with it and passes without; then stores it under /verif/seeded/<PROP>-<k>/
 set -u
 ID=$1; K=$2
-WT=/tmp/seed/$ID; OUT=/tmp/seed/out/$ID
+WT=/tmp/seed/$ID; OUT=${SEED_OUT:-/tmp/seed/out}/$ID; NAME=${3:-$ID-$K}
 export CARGO_NET_OFFLINE=true CARGO_TARGET_DIR=$WT/target
 cd $WT || exit 3
 git checkout -q -- . && git clean -fdq -e target
@@ -11,16 +11,18 @@ git apply --check $OUT/patch$K.diff || { echo "patch does not apply"; exit 3; }
 git apply $OUT/patch$K.diff
 SUITE=$(cargo test --workspace --offline --no-fail-fast 2>&1 | grep -E "^test result" | awk '{p+=$4; f+=$6} END {print p" passed "f" failed"}')
 echo "suite with change: $SUITE"
-cp $OUT/demo$K.rs rspirv/tests/seed_demo.rs
-cargo test --offline -p rspirv --test seed_demo > /tmp/seed/out/$ID/with$K.log 2>&1; WITH=$?
+PKG=rspirv; TDIR=rspirv/tests
+if grep -q "dis/tests" $OUT/meta$K.json 2>/dev/null || grep -q "CARGO_BIN_EXE" $OUT/demo$K.rs; then PKG=rspirv-dis; TDIR=dis/tests; mkdir -p dis/tests; fi
+cp $OUT/demo$K.rs $TDIR/seed_demo.rs
+cargo test --offline -p $PKG --test seed_demo > $OUT/with$K.log 2>&1; WITH=$?
 git checkout -q -- . 
-cargo test --offline -p rspirv --test seed_demo > /tmp/seed/out/$ID/without$K.log 2>&1; WITHOUT=$?
-rm -f rspirv/tests/seed_demo.rs
+cargo test --offline -p $PKG --test seed_demo > $OUT/without$K.log 2>&1; WITHOUT=$?
+rm -f $TDIR/seed_demo.rs
 git checkout -q -- . && git clean -fdq -e target
 echo "demo with change: exit $WITH ; without: exit $WITHOUT"
 case "$SUITE" in *" 0 failed") ;; *) echo "NOT CONFIRMED (suite fails)"; exit 1;; esac
 if [ $WITH -ne 0 ] && [ $WITHOUT -eq 0 ]; then
-  D=/verif/seeded/$ID-$K; mkdir -p $D
+  D=/verif/seeded/$NAME; mkdir -p $D
   cp $OUT/patch$K.diff $D/patch.diff; cp $OUT/demo$K.rs $D/demo.rs
   python3 - <<PY
 import json
